@@ -24,13 +24,22 @@ HasChar(cs, c) == \E i \in 1..Len(cs) : cs[i] = c
 DigitVal(c) == CASE c = "0" -> 0 [] c = "1" -> 1 [] c = "2" -> 2 [] c = "3" -> 3 [] c = "4" -> 4 [] c = "5" -> 5 [] c = "6" -> 6 [] c = "7" -> 7 [] c = "8" -> 8 [] c = "9" -> 9 [] OTHER -> -1
 RECURSIVE NumVal(_, _)
 NumVal(ds, acc) == IF ds = <<>> THEN acc ELSE NumVal(Tail(ds), acc * 10 + DigitVal(Head(ds)))
-\* strconv.ParseInt(s, 10, 32): optional sign, at least one digit, digits only; a negative index is an error
+\* strconv.ParseInt(s, 10, 32): optional sign, at least one digit, digits only, the value within 32 bits (beyond: a range
+\* error, whatever the number of digits); a negative index is an error
+MaxInt32Digits == <<"2", "1", "4", "7", "4", "8", "3", "6", "4", "7">>
+RECURSIVE DropZeros(_)
+DropZeros(ds) == IF Len(ds) > 1 /\ Head(ds) = "0" THEN DropZeros(Tail(ds)) ELSE ds
+RECURSIVE DigitsGreater(_, _)     \* same length: numerically greater
+DigitsGreater(a, b) == IF a = <<>> THEN FALSE
+                       ELSE IF Head(a) = Head(b) THEN DigitsGreater(Tail(a), Tail(b)) ELSE DigitVal(Head(a)) > DigitVal(Head(b))
 ParseIdx(cs) ==
   LET body == IF cs # <<>> /\ Head(cs) \in {"+", "-"} THEN Tail(cs) ELSE cs
       neg  == cs # <<>> /\ Head(cs) = "-"
   IN IF body = <<>> \/ \E i \in 1..Len(body) : DigitVal(body[i]) < 0 THEN [ok |-> FALSE, v |-> 0]
-     ELSE LET v == NumVal(body, 0) IN
-          IF neg /\ v > 0 THEN [ok |-> FALSE, v |-> 0] ELSE [ok |-> TRUE, v |-> v]
+     ELSE LET ds == DropZeros(body) IN
+          IF Len(ds) > 10 \/ (Len(ds) = 10 /\ DigitsGreater(ds, MaxInt32Digits)) THEN [ok |-> FALSE, v |-> 0]     \* (2147483648 negated would fit; a negative index is an error anyway)
+          ELSE LET v == NumVal(ds, 0) IN
+               IF neg /\ v > 0 THEN [ok |-> FALSE, v |-> 0] ELSE [ok |-> TRUE, v |-> v]
 \* one dot-separated segment that contains '[': name up to the first '[', index between it and the next ']'
 ParseSeg(seg) ==
   LET parts == SplitOn(seg, "[")
